@@ -183,7 +183,8 @@ Definition parse_int_literal (s : ustr) : result fexpr :=
   else match split_number s with
        | None => Err EUnsupported
        | Some (neg, ip, fp, ex) =>
-           if Z.leb 400 ex then syntax_error                    (* float overflow -> inf -> OverflowError -> syntax error *)
+           if Z.eqb (dec_value ip) 0 then Ok (FInt 0)            (* int(float("0e999")) = 0, whatever the exponent *)
+           else if Z.leb 400 ex then syntax_error               (* float overflow -> inf -> OverflowError -> syntax error *)
            else if Z.ltb 20 ex || Z.ltb ex 0 then Err EUnsupported
            else
              let z := (dec_value ip * pow10 (Z.to_nat ex))%Z in
@@ -224,7 +225,8 @@ Definition parse_float_literal (s : ustr) : result fexpr :=
   | Some (neg, ip, fp, ex) =>
       let '(ds, tz) := sig_digits (ip ++ fp) in
       match ds with
-      | [] => Ok (FFloat (mkNum true 0 1))
+      | [] => if neg then Err EUnsupported                     (* -0.0: the rationals have no signed zero *)
+              else Ok (FFloat (mkNum true 0 1))
       | _ =>
           let nd := Z.of_nat (length ds) in
           let zexp := (Z.of_nat tz + ex - Z.of_nat (length fp))%Z in
